@@ -30,6 +30,10 @@ type SpecEnv struct {
 	litType types.Type // bv mode: type given to untyped integer literals (nil = mathematical Int)
 	freshLo, freshHi string // isfresh(x): freshLo <= rootid(x) [< freshHi]; default alloc0 / unbounded
 	loopCallBase int        // calledinloop counts call-log entries from this index on
+	// calleeCalls: non-nil while a callee's contract is evaluated at a call site: called("X") then denotes the number
+	// of calls the CALLEE makes (a fresh non-negative integer per name, constrained by the callee's clauses), which
+	// the caller adds to its own count afterwards
+	calleeCalls map[string]string
 }
 
 type specError struct{ msg string }
@@ -1042,6 +1046,15 @@ func (e *SpecEnv) callExpr(v *ast.CallExpr) Val {
 			// lastresult("callee"): result of the most recent call of callee on this path (unconstrained if none)
 			name, _ := strconv.Unquote(v.Args[0].(*ast.BasicLit).Value)
 			if r, ok := e.s.lastRes[name]; ok {
+				// lastresult("callee", i): component i of a multi-valued result
+				if tv, isT := r.(TupleV); isT && len(v.Args) == 2 {
+					if lit, ok := v.Args[1].(*ast.BasicLit); ok {
+						if i, err := strconv.Atoi(lit.Value); err == nil && i >= 0 && i < len(tv.E) {
+							return tv.E[i]
+						}
+					}
+					specFail("lastresult: bad component index")
+				}
 				return r
 			}
 			return Scalar{e.c.freshConst(e.s, "nocall", e.c.ar.idxSort()), e.c.ar.idxSort(), types.Typ[types.Int]}
@@ -1058,11 +1071,27 @@ func (e *SpecEnv) callExpr(v *ast.CallExpr) Val {
 		case "called":
 			// called("name"): number of calls logged to callee name on this path
 			name, _ := strconv.Unquote(v.Args[0].(*ast.BasicLit).Value)
+			if e.calleeCalls != nil {
+				t, ok := e.calleeCalls[name]
+				if !ok {
+					t = e.c.freshConst(e.s, "calls", e.c.ar.idxSort())
+					e.c.assume(e.s, e.c.idxCmp(token.GEQ, t, e.c.ar.idx(0)))
+					e.calleeCalls[name] = t
+				}
+				return Scalar{t, e.c.ar.idxSort(), types.Typ[types.Int]}
+			}
 			n := 0
 			for _, l := range e.s.calllog {
 				if l == name {
 					n++
 				}
+			}
+			if extra := e.s.callExtra[name]; len(extra) > 0 {
+				t := e.c.ar.idx(int64(n))
+				for _, x := range extra {
+					t = e.c.idxAdd(t, x)
+				}
+				return Scalar{t, e.c.ar.idxSort(), types.Typ[types.Int]}
 			}
 			return e.intLit(big.NewInt(int64(n)))
 		}
